@@ -8,7 +8,9 @@ IMPORTS = ("From Coq Require Import String.\nFrom stdpp Require Import gmap.\nFr
            "From Galaxy.Model Require Import Nets Pool Ipam Plugin PluginPool PluginCrash.\nFrom Galaxy.Model Require Keys.\n"
            "From Galaxy.Corr Require Import CorrBase Ipamc Pluginc.\n")
 
-NODES = {"node1": "10.1.0.7", "node2": "10.2.0.9", "node3": "10.3.0.5", "node4": "10.77.0.1"}
+NODES = {"node1": "10.1.0.7", "node2": "10.2.0.9", "node3": "10.3.0.5", "node4": "10.77.0.1",
+         # nodes in the upper half of their /24: a reload may split a node subnet in two
+         "node5": "10.1.0.200", "node6": "10.2.0.130"}
 
 
 def pod_key(s):
